@@ -57,6 +57,10 @@ PROPS = {
                     "Executor::handle_select_process",
                     "Executor::ensure_select_start_time",
                     "Executor::handle_select_continuation",
+                    # arrivals between entries: a message is appended at the back of the mailbox, an await answer is
+                    # recorded; neither may touch the select state's cursors
+                    "Executor::notify_message",
+                    "Executor::notify_result",
                 ],
                 ALL,
             ),
